@@ -625,6 +625,39 @@ class Node:
         self.put(out, v)
         return None
 
+    def op_dumpall(self, op):
+        """['dumpall', None]: one pickle of every live slot (sharing between the objects is
+        kept); slots that do not pickle are left out and reported."""
+        live = dict(self.slots)
+        skipped = []
+        for _ in range(3):
+            try:
+                b = pickle.dumps(live, protocol=pickle.HIGHEST_PROTOCOL)
+                return {"blob": base64.b64encode(b).decode("ascii"), "n": len(live), "skipped": sorted(skipped)}
+            except BaseException as ex:  # noqa: B036
+                if isinstance(ex, (KeyboardInterrupt, RecursionError, MemoryError)):
+                    raise
+                bad = []
+                for k, v in live.items():
+                    try:
+                        pickle.dumps(v, protocol=pickle.HIGHEST_PROTOCOL)
+                    except BaseException:  # noqa: B036
+                        bad.append(k)
+                if not bad:
+                    raise
+                for k in bad:
+                    live.pop(k)
+                skipped += bad
+        raise Skip("dumpall")
+
+    def op_loadall(self, op):
+        """['loadall', None, {'blob': ...}]: restore the slots of a checkpoint."""
+        _, _, blob = op
+        live = pickle.loads(base64.b64decode(blob["blob"]))
+        for k, v in live.items():
+            self.slots[int(k)] = v
+        return {"n": len(live)}
+
     def op_evalrepr(self, op):
         _, out, slot = op
         if self.evalns is None:
